@@ -17,13 +17,17 @@ structure Net where
   deriving Repr, Inhabited
 
 namespace Net
+/-- how many bytes the next `recv(n)` may deliver at most -/
+def cap (n : Nat) (sched : List Nat) : Nat :=
+  match sched with
+  | [] => n
+  | k :: _ => min n (max k 1)
+
 /-- `sock.recv(n)`; `none` = `socket.timeout` or `b""` (peer closed) -/
 def recv (n : Nat) (net : Net) : Option (Bytes × Net) :=
   if net.stream.isEmpty then none else
-  let cap := match net.sched with
-    | [] => n
-    | k :: _ => min n (max k 1)
-  some (net.stream.take cap, { net with stream := net.stream.drop cap, sched := net.sched.tail })
+  some (net.stream.take (cap n net.sched),
+        { net with stream := net.stream.drop (cap n net.sched), sched := net.sched.tail })
 
 /-- the peer reacts to something the client did: the next reply segment becomes readable -/
 def release (net : Net) : Net :=
@@ -181,11 +185,12 @@ def readBlock (size : Nat) (st : RState) : Except RErr (Bytes × RState) :=
 /-- split at the first CRLF: (before, after) -/
 def splitCRLF : Bytes → Option (Bytes × Bytes)
   | [] => none
-  | 13 :: 10 :: rest => some ([], rest)
   | c :: rest =>
-    match splitCRLF rest with
-    | some (a, b) => some (c :: a, b)
-    | none => none
+    if c == 13 && rest.head? == some 10 then some ([], rest.tail)
+    else
+      match splitCRLF rest with
+      | some (a, b) => some (c :: a, b)
+      | none => none
 
 /-- the `while True` loop of `__read_line`: returns the raw line (without CRLF) -/
 def rawLine : Nat → RState → Except RErr (Bytes × RState)
@@ -198,24 +203,28 @@ def rawLine : Nat → RState → Except RErr (Bytes × RState)
       | none => .error .error
       | some (chunk, net') => rawLine fuel { st with buf := st.buf ++ chunk, net := net' }
 
+/-- optional response code in front of the text: (code or empty, rest) -/
+def splitCode (t : Bytes) : Bytes × Bytes :=
+  match codeMatch t with
+  | some (code, rest) => (code, rest)
+  | none => ([], t)
+
 /-- `__parse_error(text)` -/
 def parseError (text : Option Bytes) (st : RState) : Except RErr RState :=
-  let st := { st with errcode := [], errmsg := [] }
   match text with
-  | none => .ok st
+  | none => .ok { st with errcode := [], errmsg := [] }
   | some t =>
-    let (st, t) := match codeMatch t with
-      | some (code, rest) => ({ st with errcode := code }, rest)
-      | none => (st, t)
-    match sizeMatch t with
+    match sizeMatch (splitCode t).2 with
     | some n =>
-      match readBlock (n + 2) st with
+      match readBlock (n + 2) { st with errcode := (splitCode t).1, errmsg := [] } with
       | .error e => .error e
       | .ok (b, st') => .ok { st' with errmsg := b.take (b.length - 2) }
     | none =>
-      match textMatch t with
-      | some body => .ok { st with errmsg := unescape body }
-      | none => if t.isEmpty then .ok st else .error .error
+      match textMatch (splitCode t).2 with
+      | some body => .ok { st with errcode := (splitCode t).1, errmsg := unescape body }
+      | none =>
+        if (splitCode t).2.isEmpty then .ok { st with errcode := (splitCode t).1, errmsg := [] }
+        else .error .error
 
 /-- what `__read_line` delivers -/
 inductive LineEv where
